@@ -4,12 +4,45 @@
 -/
 import Driver.Text
 import Ezpz.Model.Composite
+import Ezpz.Model.Outcome
 namespace Ezpz.Driver
 open Ezpz
+
+/-- `X lookup_<kind> <ids…> <n> <n value bits>`: the typed lookups of `solve_outcome.rs` on an outcome
+whose final values are the given ones (`Ezpz/Model/Outcome.lean`); `PANIC` where the real code
+indexes out of bounds. -/
+def runLookup (kind : String) (ns : List Nat) : String :=
+  let nid := match kind with
+    | "lookup_distance" => 1 | "lookup_point" => 2 | "lookup_circle" => 3 | "lookup_arc" => 6 | _ => 0
+  if nid = 0 ∨ ns.length < nid + 1 then "bad-op" else
+  let ids := ns.take nid
+  let n := ns.getD nid 0
+  let vals : List Float := ((ns.drop (nid + 1)).take n).map (fun b => Float.ofBits (UInt64.ofNat b))
+  if vals.length ≠ n ∨ ns.length ≠ nid + 1 + n then "bad-op" else
+  let o : Outcome Float := ⟨[], vals, 0, [], 0, none⟩
+  let id (k : Nat) := ids.getD k 0
+  let pt (k : Nat) : Pt := ⟨id k, id (k + 1)⟩
+  let sh (xs : List Float) : String := joinWith " " (xs.map (fun v => toString v.toBits.toNat))
+  match kind with
+  | "lookup_distance" =>
+    match o.finalValueDistance (id 0) with | some v => sh [v] | none => "PANIC"
+  | "lookup_point" =>
+    match o.finalValuePoint (pt 0) with | some (x, y) => sh [x, y] | none => "PANIC"
+  | "lookup_circle" =>
+    match o.finalValueCircle ⟨pt 0, id 2⟩ with | some ((x, y), r) => sh [x, y, r] | none => "PANIC"
+  | _ =>
+    match o.finalValueArc ⟨pt 0, pt 2, pt 4⟩ with
+    | some ((ax, ay), (bx, bY), (cx, cy)) => sh [ax, ay, bx, bY, cx, cy]
+    | none => "PANIC"
 
 def runComposite (ts : Toks) : String :=
   match ts with
   | name :: rest =>
+    if name.startsWith "lookup_" then
+      match rest.mapM (·.toNat?) with
+      | none => "bad-op"
+      | some ns => runLookup name ns
+    else
     match rest.mapM (·.toNat?) with
     | none => "bad-op"
     | some ns =>
